@@ -394,7 +394,7 @@ def finish(pm, rep: Report, obligations):
     solver_time = round(sum(r["time_s"] for r in res.values()), 3)
     backends = {}
     for r in res.values():
-        backends[r["backend"]] = backends.get(r["backend"], 0) + 1
+        backends[r.get("backend", "?")] = backends.get(r.get("backend", "?"), 0) + 1
     samples = []
     for o in proof_obs[:3]:
         samples.append({"obligation": o.id, "kind": o.kind, "status": res[o.id]["status"], "solver_time_s": res[o.id]["time_s"],
